@@ -20,9 +20,9 @@ from core import hx
 from runner import Case
 
 THEOREMS = [
-    "C10.dwf_init", "C10.dwf_step", "C10.dwf_run",
+    "C10.dwf_init", "C10.dwf_step", "C10.dwf_run", "C10.dwf_trace", "C10.history_invariant",
     "C10.assign_only_adds", "C10.delete_exact", "C10.reject_loops",
-    "C10.upfront_check_suffices", "C10.anc_fuel_complete",
+    "C10.upfront_check_suffices", "C10.anc_fuel_complete", "C10.assign_list_exact",
 ]
 PROOF_IMPORTS = ["BigtreeProofs.Properties.C10"]
 CORRESPONDENCE = "DagStore.step / DagStore.run  vs  DAGNode setters, >>, <<, deleters, constructor"
@@ -225,6 +225,35 @@ class World:
         return "ok"
 
 
+class _Timeout(BaseException):
+    pass
+
+
+HANG_SECONDS = 10.0
+
+
+def _on_alarm(signum, frame):
+    raise _Timeout()
+
+
+def _arm(seconds):
+    """wall-clock guard around one history (a broken loop check makes `ancestors` run away)"""
+    import signal
+    try:
+        prev = signal.signal(signal.SIGALRM, _on_alarm)
+        signal.setitimer(signal.ITIMER_REAL, seconds)
+        return prev
+    except ValueError:      # not in the main thread: no guard
+        return None
+
+
+def _disarm(prev):
+    import signal
+    if prev is not None:
+        signal.setitimer(signal.ITIMER_REAL, 0)
+        signal.signal(signal.SIGALRM, prev)
+
+
 _MEMO: dict = {}
 _MEMO_MAX = 400000
 
@@ -241,17 +270,28 @@ def run_real(d, assertions=None, with_anc=True):
     import bigtree.node.dagnode as dn
     old = dn.ASSERTIONS
     dn.ASSERTIONS = asrt
+    timer = _arm(HANG_SECONDS)
     try:
         w = World(d["names"])
         out = [("init", w.snapshot(), None)]
         for op in d["ops"]:
-            o = w.apply(op)
+            try:
+                o = w.apply(op)
+            except _Timeout:
+                out.append(("hang", w.snapshot(), None))
+                break
             snap = w.snapshot()
             anc = None
-            if with_anc and asrt and _acyclic(snap):
+            acyc = _acyclic(snap)
+            if with_anc and asrt and acyc:
                 anc = [[w.ident(a) for a in x.ancestors] for x in w.reg]
             out.append((o, snap, anc))
+            if asrt and not acyc:
+                break   # the guards walk `ancestors`, which does not terminate on a cyclic store: stop here
+    except _Timeout:
+        out.append(("hang", [], None))
     finally:
+        _disarm(timer)
         dn.ASSERTIONS = old
     if len(_MEMO) < _MEMO_MAX:
         _MEMO[key] = out
@@ -432,11 +472,19 @@ def _wf_msgs(snap, where):
 def oracle_c10(d, assertions=None):
     """first-principles reading of C10 on the real objects (graph search, set algebra; no model)"""
     tr = run_real(d, assertions)
+    asrt = bool(d["asrt"]) if assertions is None else bool(assertions)
     msgs = []
     for k, op in enumerate(d["ops"]):
+        if k + 1 >= len(tr):
+            break
         _, before, _ = tr[k]
         out, after, anc = tr[k + 1]
         where = f"after op {k} {op_tok(op)} ({out})"
+        if not asrt and (not _valid_members(op) or _must_refuse(op, before) or _not_a_list(op)):
+            break   # checks off: the claim covers the history up to the first call the checks would have refused
+        if out == "hang":
+            msgs.append(f"{where}: the call did not return within {HANG_SECONDS}s")
+            break
         wf = _wf_msgs(after, where)
         msgs += wf
         if wf:
@@ -506,6 +554,8 @@ def oracle_c02(d, assertions=None):
     asrt = bool(d["asrt"]) if assertions is None else bool(assertions)
     msgs = []
     for k, op in enumerate(d["ops"]):
+        if k + 1 >= len(tr):
+            break
         _, before, _ = tr[k]
         out, after, _ = tr[k + 1]
         if out != "rej":
@@ -548,11 +598,20 @@ def _valid_members(op) -> bool:
     return True
 
 
+def _not_a_list(op) -> bool:
+    """argument kinds the type checks refuse: anything but a list for parents, a non-iterable for children"""
+    if op[0] == "P":
+        return op[2][0] != "L"
+    if op[0] == "C":
+        return op[2][0] == "N"
+    if op[0] == "N":
+        return op[2][0] != "L" or op[3][0] == "N"
+    return False
+
+
 def oracle(case):
-    d = case.data
-    if not d["asrt"]:
-        return []      # C10 is claimed for the default configuration (checks on)
-    return oracle_c10(d)
+    # with the checks off the clauses are read on the prefix of the history that the checks would have accepted
+    return oracle_c10(case.data)
 
 
 # ------------------------------------------------------------------ generators
@@ -567,19 +626,24 @@ def _bfs_states(n, names):
     moves = []
     for v in range(n):
         others = [i for i in range(n) if i != v]
-        for r in range(1, n):
+        # a multi-member assignment is the sequence of its single insertions, and `c.parents=[p]` / `p.children=[c]`
+        # append to the same two lists: single-member parents assignments reach every store (n <= 3 uses all moves
+        # anyway and finds the same 1 / 3 / 49 stores)
+        for r in range(1, n if n <= 3 else 2):
             for l in itertools.permutations(others, r):
                 moves.append(["P", v, ["L", list(l)], "none"])
-                moves.append(["C", v, ["L", list(l)], "none"])
+                if n <= 3:
+                    moves.append(["C", v, ["L", list(l)], "none"])
         moves.append(["D", v])
         for nm in sorted(set(names)):
             moves.append(["X", v, nm])
     def state(h):
         tr = run_real(mk_data(n, h, names), with_anc=False)
         return repr(tr[-1][1])
+    cap = {1: 50, 2: 100, 3: 600, 4: 12000}.get(n, 12000)   # real counts: 1, 3, 49, 7885; a broken setter may diverge
     seen = {state([]): []}
     frontier = [[]]
-    while frontier:
+    while frontier and len(seen) < cap:
         nxt = []
         for h in frontier:
             for mv in moves:
@@ -588,6 +652,8 @@ def _bfs_states(n, names):
                 if st not in seen:
                     seen[st] = h2
                     nxt.append(h2)
+            if len(seen) >= cap:
+                break
         frontier = nxt
     return list(seen.values())
 
@@ -673,7 +739,10 @@ def gen_exhaustive4(rng, per_state):
     members = list(range(4)) + ["j0"]
     for h in states:
         for _ in range(per_state):
-            out.append((mk_data(4, h + [_random_op(rng, 4, names, None, 0.3, 0.5, members)], names, 1), ("exh4", "n=4")))
+            op = None
+            while op is None:
+                op = _random_op(rng, 4, names, None, 0.3, 0.5, members)
+            out.append((mk_data(4, h + [op], names, 1), ("exh4", "n=4", "op=" + op[0])))
     return out
 
 
@@ -879,7 +948,7 @@ EXHAUSTIVE = {
              "(all three fault points for lists of length <= 2; length-3 lists over the nodes with none/post) + tuples, "
              "non-iterables, >>, <<, both deleters, constructor with every pair of lists of length <= 2 (<= 2 nodes)",
     "thorough": "as quick with all three fault points everywhere and all nine fault pairs for the constructor; plus every "
-                "list-exact store reachable on 4 nodes (7885 states) x 12 random operations each",
+                "list-exact store reachable on 4 nodes (7885 states) x 12 random operations each (states exhaustive, operations sampled)",
 }
 MODELLED = [
     "DAGNode objects are ids in allocation order; identity = equality of ids; ids >= n stand for non-node objects",
@@ -893,10 +962,22 @@ ASSUMPTIONS = [
     "hooks do not themselves mutate links",
     "arguments are lists, tuples or non-iterables whose members are DAGNode objects or plain non-node objects "
     "(None, int, str, object()); single-pass iterators are not generated",
-    "C10's clauses are claimed (oracle, theorems) for the default configuration ASSERTIONS=True; with the checks off "
-    "only the model correspondence is compared",
+    "C10's clauses are claimed (theorems) for the default configuration ASSERTIONS=True; with the checks off the oracle "
+    "reads them on the prefix of each history up to the first call the checks would have refused, the rest is model "
+    "correspondence only",
 ]
-LEVEL_TEXT = ""
-LEVEL_NOTE = ""
-TECHNIQUE = ""
-NOT_READY = True
+LEVEL_TEXT = ("Lean 4 proof, for all stores, all operation histories, all arguments (valid or not) and all hook-fault points, "
+              "about a statement-level model of dagnode.py (DagStore), tied to /repo by differential testing of the real "
+              "DAGNode API against the compiled model on every run")
+LEVEL_NOTE = ("Proved (no sorry, standard axioms only): DWF (p in parents c <-> c in children p; both lists Nodup; ids in range; "
+              "Acc of the parent relation = nobody is its own ancestor) holds initially and is preserved by every operation "
+              "(both setters, >>, <<, both deleters, constructor) with every argument and every fault, hence over every "
+              "history and every intermediate store; assignments only add (old lists are prefixes) and an accepted one adds "
+              "exactly the requested edges (also list-exactly); deletions remove exactly the named edges; self-loops, cycles "
+              "through paths of any length, repeated members and non-nodes are refused; the guard that looks at the initial "
+              "store only is sufficient for the sequential insertion loop; the fuel n+1 of the recursive `ancestors` is "
+              "complete. Rests on the tie: that DagStore mirrors dagnode.py (0 disagreements; lists compared as multisets, "
+              "order differences logged). Not covered: single-pass iterator arguments, hooks that mutate links, "
+              "behaviour with the checks switched off beyond the model correspondence.")
+TECHNIQUE = "machine-checked proof (Lean 4) on a hand-written executable model + correspondence check against the real code"
+NOT_READY = False
